@@ -75,6 +75,7 @@ type Extra struct { // a file that is not a Java class (resources, notes)
 type Input struct {
 	Layout string  `json:"layout"` // flat | maven (informational)
 	Via    string  `json:"via"`    // api | cli
+	Rel    bool    `json:"rel"`    // analyse the tree as "." from inside its root (the CLI default `-p .`) instead of by absolute path
 	Style  int     `json:"style"`  // seed of the layout choices of the renderer (white space, brace style, comments)
 	Files  []File  `json:"files"`
 	Extras []Extra `json:"extras"`
@@ -212,12 +213,18 @@ func rel(root, p string) string {
 }
 
 // the sequence of cmd/tbs.go, in this process (cwd = scratch: LoadTestIdentify writes coca_reporter/ there)
-func viaAPI(scratch, root string, o *Obs) {
+func viaAPI(scratch, root string, relative bool, o *Obs) {
 	old, _ := os.Getwd()
 	os.Chdir(scratch)
 	defer os.Chdir(old)
+	arg := root
+	if relative {
+		os.Chdir(root)
+		arg = "."
+		root = "."
+	}
 	p, msg := lib.Guard(func() {
-		files := cocafile.GetJavaTestFiles(root)
+		files := cocafile.GetJavaTestFiles(arg)
 		identifiers := cmd_util.LoadTestIdentify(files)
 		identifiersMap := core_domain.BuildIdentifierMap(identifiers)
 		analysisApp := javaapp.NewJavaFullApp()
@@ -242,7 +249,7 @@ type cliSmell struct {
 
 var numsRe = regexp.MustCompile(`Test Bad Smell nums:\s+(\d+)`)
 
-func viaCLI(scratch, root string, o *Obs) {
+func viaCLI(scratch, root string, relative bool, o *Obs) {
 	bin := os.Getenv("VERIF_COCA")
 	if bin == "" {
 		fmt.Fprintln(os.Stderr, "harness: VERIF_COCA not set")
@@ -250,6 +257,13 @@ func viaCLI(scratch, root string, o *Obs) {
 	}
 	cmd := exec.Command(bin, "tbs", "-p", root)
 	cmd.Dir = scratch
+	reporter := scratch
+	if relative {
+		cmd = exec.Command(bin, "tbs", "-p", ".")
+		cmd.Dir = root
+		reporter = root
+		root = "."
+	}
 	cmd.Env = append(os.Environ(), "TMPDIR="+scratch, "HOME="+scratch)
 	out, err := cmd.CombinedOutput()
 	if err != nil {
@@ -258,7 +272,7 @@ func viaCLI(scratch, root string, o *Obs) {
 		o.Note = short(string(out), 300)
 		return
 	}
-	raw, err := os.ReadFile(filepath.Join(scratch, "coca_reporter", "tbs.json"))
+	raw, err := os.ReadFile(filepath.Join(reporter, "coca_reporter", "tbs.json"))
 	if err != nil {
 		fmt.Fprintln(os.Stderr, "harness: no tbs.json:", err)
 		os.Exit(2)
@@ -333,9 +347,9 @@ func one(raw json.RawMessage) interface{} {
 		os.Exit(2)
 	}
 	if c.Input.Via == "cli" {
-		viaCLI(scratch, root, &rec.Observed)
+		viaCLI(scratch, root, c.Input.Rel, &rec.Observed)
 	} else {
-		viaAPI(scratch, root, &rec.Observed)
+		viaAPI(scratch, root, c.Input.Rel, &rec.Observed)
 	}
 	if os.Getenv("TESTSMELL_KEEP") != "" {
 		// development aid: keep the rendered tree next to the scratch directory
